@@ -430,6 +430,10 @@ def correspond(ctx):
                 if fails and json.dumps(detail, sort_keys=True) not in have:
                     res.impl_violations.append(detail)
     res.distribution["corpus_cases"] = ncorpus
+    pv, pev = _purity_probe(ctx, st)
+    res.impl_violations.extend(pv)
+    res.evaluations += pev
+    res.distribution["array_purity_evaluations"] = pev
     cv, cev, ncomp = _compound_sweep(ctx)
     res.impl_violations.extend(cv)
     res.evaluations += cev
@@ -487,6 +491,46 @@ def _compound_sweep(ctx, only=None):
     return viol, evals, len(comps)
 
 
+def _purity_probe(ctx, st):
+    """array-valued quantisers: re-encoding the array that decode() returned must not modify it, and encoding it a second time
+    gives the same raw integers again (decode/encode are functions of their argument: no in-place arithmetic on the caller's
+    array, no state kept between calls).  All raws of the wire type, in the array shapes the mesh code uses."""
+    import numpy as np
+    viol, evals = [], 0
+    for inst in st["insts"]:
+        if inst.kind != "numpy":
+            continue
+        o = inst.obj
+        n = inst.rmax - inst.rmin + 1
+        elems = int(inst.params.get("elems", 1)) or 1
+        for shape in ((n,), (n // elems * elems // elems, elems) if elems > 1 else (n, 1)):
+            try:
+                count = int(np.prod(shape))
+                raw = (np.arange(count, dtype=np.int64) % n + inst.rmin).astype(o.dtype).reshape(shape)
+                dec = o.decode(raw.copy(), None)
+                keep = np.array(dec, copy=True)
+                enc1 = np.array(o.encode(dec, None), copy=True)
+                same_after_1 = bool(np.array_equal(np.asarray(dec), keep))
+                enc2 = np.array(o.encode(dec, None), copy=True)
+                evals += 3 * count
+                ok1 = bool(np.array_equal(enc1.reshape(-1).astype(np.int64), raw.reshape(-1).astype(np.int64)))
+                ok2 = bool(np.array_equal(enc2.reshape(-1).astype(np.int64), raw.reshape(-1).astype(np.int64)))
+                dec2 = o.decode(raw.copy(), None)
+                same_decode = bool(np.array_equal(np.asarray(dec2), keep))
+            except Exception as e:   # noqa
+                viol.append({"clause": "decoding any raw and re-encoding gives back the same integer (array form)", "class": "array-roundtrip-raised",
+                             "instance": inst.ident(), "shape": list(shape), "detail": type(e).__name__ + ": " + str(e)[:120]})
+                break
+            if not (ok1 and ok2 and same_after_1 and same_decode):
+                viol.append({"clause": "decoding any raw and re-encoding gives back the same integer - also when the decoded array is "
+                                       "encoded a second time; encode() does not modify the array it is given",
+                             "class": "array-encode-not-pure", "instance": inst.ident(), "shape": list(shape),
+                             "first_encode_ok": ok1, "second_encode_ok": ok2, "decoded_array_unchanged": same_after_1,
+                             "decode_repeatable": same_decode})
+                break
+    return viol, evals
+
+
 def search(ctx, hints):
     from harness.common import framework as fw
     known = fw.load_findings(PROP_ID)
@@ -542,6 +586,9 @@ def diagnose(ctx, stmt):
 
 
 def replay(ctx, case):
+    if case.get("class") in ("array-encode-not-pure", "array-roundtrip-raised"):
+        pv, _ = _purity_probe(ctx, _prepare(ctx))
+        return (True, pv[0]) if pv else (False, "array encode is pure and repeatable")
     if case.get("class") == "compound-roundtrip":
         cv, _, _ = _compound_sweep(ctx)
         for v in cv:
